@@ -7,6 +7,7 @@ Provides a protocol for cache backends and two implementations:
 
 from __future__ import annotations
 
+import copy
 import hashlib
 import hmac
 import io
@@ -35,6 +36,21 @@ class CacheBackend(Protocol):
         ...
 
 
+def _private_copy(value: Any) -> Any:
+    """Copy of a cached value that shares no mutable state with the original.
+
+    An entry must stay what the node computed: the producing run hands the very
+    same object to downstream nodes, and so would every later hit, so a consumer
+    that mutates it would otherwise change the entry (DiskCache entries are
+    pickled and therefore already private). Values that cannot be deep-copied
+    are kept as they are.
+    """
+    try:
+        return copy.deepcopy(value)
+    except Exception:  # noqa: BLE001 - uncopyable values are cached by reference, as before
+        return value
+
+
 class InMemoryCache:
     """Dict-based in-memory cache with optional LRU eviction.
 
@@ -57,13 +73,13 @@ class InMemoryCache:
         if key not in self._data:
             return False, None
         self._data.move_to_end(key)
-        return True, self._data[key]
+        return True, _private_copy(self._data[key])
 
     def set(self, key: str, value: Any) -> None:
         """Store a value. Evicts least-recently-used entry if at capacity."""
         if key in self._data:
             self._data.move_to_end(key)
-        self._data[key] = value
+        self._data[key] = _private_copy(value)
         if self._max_size is not None and len(self._data) > self._max_size:
             self._data.popitem(last=False)
 
